@@ -17,7 +17,7 @@ check("C08", "exploration", "runtime differential monitor: idr tree vs standard-
       "DESIGN.md section 3 C08")
 
 HOOK_COMMITS.append("a527d01")
-HOOK_COMMITS.append("34aae05")
+HOOK_COMMITS.append("99b2143")
 
 check("C11", "exploration", "runtime differential monitor: idr.MatchAll vs antchfx/xmlquery navigator on a harness-built DOM, same xpath engine",
       "Held on every generated (document, expression, context) triple (quick 8e4, thorough 4e6 queries): same nodes, order and string-values as the "
